@@ -507,9 +507,18 @@ def ob_sync_request(run, interp):
                     env.res = r
                     made.append(r)
                     return r
-                t = object.__new__(timed)
-                t.proxy = fake_async_proxy
-                t.timeout = T
+                # the wrapper is built by its real constructor, some time (any delay >= 0) before it is called: the expiry
+                # counts from the call, not from the construction
+                from rpyc.utils import helpers
+                interp.models[helpers.async_] = lambda interp_, proxy: fake_async_proxy
+                try:
+                    t = interp.call(timed, ("PROXY", T))
+                finally:
+                    interp.models.pop(helpers.async_, None)
+                d = c.fresh_real("delay_before_call")
+                c.assume(d >= 0)
+                clock.now = clock.now + d
+                c.notes.update(t0=clock.now, delay=d)
                 res = interp.call(timed.__call__, (t, 1, 2))
                 c.notes["res"] = res
                 try:
@@ -562,7 +571,7 @@ def ob_sync_request(run, interp):
                 run.replay(o, "sync:%d:%s" % (c.notes["which"], r.value[0]),
                            "%s with configured timeout %r: outcome %s at clock %s, expiry %s" % (
                                ["sync_request", "timed"][c.notes["which"]], Tv, r.value[0], _rv(m, now), _rv(m, tmax)),
-                           replay_sync(c.notes["which"], Tv))
+                           replay_sync(c.notes["which"], Tv, _rv(m, c.notes["delay"]) if "delay" in c.notes else 0.0))
 
         interp.on_bound = "cut"
         try:
@@ -579,7 +588,7 @@ def ob_sync_request(run, interp):
     return ob
 
 
-def replay_sync(which, T):
+def replay_sync(which, T, delay=0.0):
     return REPLAY_HEAD + '''
 import rpyc.core.protocol
 from rpyc.core.protocol import Connection
@@ -587,6 +596,7 @@ from rpyc.core import consts
 from rpyc.utils.helpers import timed
 T = %r
 which = %d
+DELAY = %r
 class Hang(Exception): pass
 spins = [0]
 class Chan(object):
@@ -621,20 +631,26 @@ for TT in ([T] if T is not None and T >= 0 else []) + [0.0, 1.5]:
                 C2.n += 1
                 if C2.n > 2000: raise Hang("busy-wait")
                 clock.now += t.timeleft(); return False
-        t = object.__new__(timed)
-        t.proxy = lambda *a, **k: AsyncResult(C2())
-        t.timeout = TT
+        import rpyc.utils.helpers as helpers
+        real_async = helpers.async_
+        helpers.async_ = lambda proxy: (lambda *a, **k: AsyncResult(C2()))
+        try:
+            t = timed("PROXY", TT)                   # built by the real constructor ...
+        finally:
+            helpers.async_ = real_async
+        clock.now += DELAY                           # ... some time before it is called
+        t_call = clock.now
         r = t(1)
         try:
             r.value; bad.append("returned without a reply")
         except Hang as e:
             bad.append("timed(T=%%r) %%s" %% (TT, e))
         except AsyncResultTimeout:
-            if abs(clock.now - (50.0 + TT)) > 1e-9: bad.append("timed(T=%%r) timed out at %%r" %% (TT, clock.now - 50.0))
+            if abs(clock.now - (t_call + TT)) > 1e-9: bad.append("timed(T=%%r) called %%r s after it was built timed out %%r s after the call" %% (TT, DELAY, clock.now - t_call))
 print(bad)
 if bad:
     print("REPRODUCED"); sys.exit(1)
-''' % (T, which)
+''' % (T, which, delay)
 
 
 def translator_validation(run, interp):
